@@ -579,6 +579,9 @@ pub fn violation_cases() -> Vec<(&'static str, &'static str, Vec<Vec<Step>>, Vec
     ("C06", "C06.bounded.overlapping_declared_write_aborts", vec![vec![Require(1, 1), Require(2, 1)], vec![Write(2, 1)], vec![WrittenTo(2, 2)]], vec![Act::TopDown(0)], "Overlapping write"),
     ("C06", "C06.bounded.overlap_with_requirer_that_wrote_first_aborts", vec![vec![Write(2, 1), Require(1, 1)], vec![Write(2, 2)]], vec![Act::TopDown(0)], "Overlapping write"),
     ("C06", "C06.bounded.overlapping_write_in_later_session_aborts", vec![vec![Write(2, 1)], vec![Write(2, 2)]], vec![Act::TopDown(0), Act::TopDown(1)], "Overlapping write"),
+    // the writer of a resource stays recorded while a *reader* of that resource is re-executed (the writer itself stays consistent)
+    ("C06", "C06.bounded.overlap_after_a_reader_of_the_resource_was_reexecuted_aborts", vec![vec![Write(2, 1)], vec![Require(0, 1), Read(2, 0), Read(0, 0)], vec![Write(2, 2)]], vec![Act::Set(0, 0), Act::TopDown(1), Act::Set(0, 1), Act::TopDown(1), Act::TopDown(2)], "Overlapping write"),
+    ("C06", "C06.bounded.declared_overlap_after_a_reader_of_the_resource_was_reexecuted_aborts", vec![vec![Write(2, 1)], vec![Require(0, 1), Read(2, 0), Read(0, 0)], vec![WrittenTo(2, 2)]], vec![Act::Set(0, 0), Act::TopDown(1), Act::Set(0, 1), Act::TopDown(1), Act::TopDown(2)], "Overlapping write"),
     ("C07", "C07.bounded.cycle_of_two_aborts", vec![vec![Require(1, 0)], vec![Require(0, 0)]], vec![Act::TopDown(0)], "Cyclic task dependency"),
     ("C07", "C07.bounded.cycle_of_three_aborts", vec![vec![Require(1, 0)], vec![Require(2, 0)], vec![Require(0, 0)]], vec![Act::TopDown(0)], "Cyclic task dependency"),
     ("C07", "C07.bounded.cycle_through_a_task_that_read_a_generated_resource_aborts", vec![vec![Require(1, 0)], vec![Require(3, 1), Read(2, 0), Require(2, 0)], vec![Require(0, 0)], vec![Write(2, 1)]], vec![Act::TopDown(0)], "Cyclic task dependency"),
